@@ -8,6 +8,7 @@ package main
 import (
 	"context"
 	"fmt"
+	"math"
 	"sort"
 	"time"
 
@@ -398,7 +399,8 @@ func (x *sh) observe(opname string, grants, failed []int, parkedBefore []int) {
 }
 
 func runSem(h *verifx.H, r *verifx.Rng) {
-	size := int64(r.Range(0, 6))
+	size := semSize(r)
+	huge := size > 1<<40 // "unlimited" semaphore: boundary weights near MaxInt64 are exercised
 	x := &sh{h: h, s: semaphore.NewWeighted(size), rets: make(chan ret, 1024), doomed: map[int]bool{}, pending: map[int]bool{}, weight: map[int]int64{}}
 	h.Op("s new %d", size)
 	cancels := map[int]context.CancelFunc{}
@@ -453,7 +455,7 @@ func runSem(h *verifx.H, r *verifx.Rng) {
 			h.NonTrivial("cancel-races-grant")
 			x.observe("relcancel", grants, failed, parkedBefore)
 		case 0: // acquire
-			id, n := nextID, int64(r.Range(0, 4))
+			id, n := nextID, semWeight(r, huge)
 			nextID++
 			ctx, cancel := context.WithCancel(context.Background())
 			x.weight[id] = n
@@ -491,7 +493,7 @@ func runSem(h *verifx.H, r *verifx.Rng) {
 			noteGrants(grants)
 			x.observe("acquire", grants, failed, parkedBefore)
 		case 1: // tryAcquire
-			id, n := nextID, int64(r.Range(0, 4))
+			id, n := nextID, semWeight(r, huge)
 			nextID++
 			x.weight[id] = n
 			h.Stat("s.try", 1)
@@ -556,6 +558,9 @@ func runSem(h *verifx.H, r *verifx.Rng) {
 			x.observe("release", grants, failed, parkedBefore)
 		case 4: // setSize
 			n := int64(r.Range(0, 7))
+			if huge {
+				n = semSize(r)
+			}
 			h.Stat("s.setsize", 1)
 			h.Op("s size %d", n)
 			if len(x.fifo) > 0 {
@@ -571,6 +576,9 @@ func runSem(h *verifx.H, r *verifx.Rng) {
 			x.observe("setsize", grants, failed, parkedBefore)
 		case 5: // forceAcquire
 			n := int64(r.Range(0, 3))
+			if cur0, _ := x.s.Observe(); cur0 > 1<<61 {
+				continue // cur + n would overflow int64 in the real ForceAcquire; outside the property
+			}
 			h.Stat("s.force", 1)
 			h.Op("s force %d", n)
 			x.s.ForceAcquire(n)
@@ -584,6 +592,34 @@ func runSem(h *verifx.H, r *verifx.Rng) {
 	for _, c := range cancels {
 		c()
 	}
+}
+
+// semSize: mostly small sizes; sometimes an "unlimited" semaphore (MaxInt64 and neighbours), the configuration in
+// which a room check written as cur+n <= size overflows while the code's size-cur >= n does not.
+func semSize(r *verifx.Rng) int64 {
+	switch r.Pick(12, 1, 1) {
+	case 1:
+		return math.MaxInt64
+	case 2:
+		return math.MaxInt64 - int64(r.Range(1, 5))
+	}
+	return int64(r.Range(0, 6))
+}
+
+func semWeight(r *verifx.Rng, huge bool) int64 {
+	if huge {
+		switch r.Pick(3, 1, 1, 1) {
+		case 1:
+			return math.MaxInt64
+		case 2:
+			return math.MaxInt64 - int64(r.Range(1, 5))
+		case 3:
+			return 1 << 62
+		}
+	} else if r.Chance(1, 25) {
+		return math.MaxInt64 // doomed on a small semaphore; cur+n overflows if cur > 0
+	}
+	return int64(r.Range(0, 4))
 }
 
 func main() {
